@@ -74,3 +74,160 @@ Theorem C14_stream_error_before_lines :
   forall (v : vendor) (g : prog), P_C14_d v g (model_obs patched v g) = true.
 Proof. exact model_P_C14_d. Qed.
 Print Assumptions C14_stream_error_before_lines.
+
+(* ------------------------------------------------------------------------------------------
+   (c) refs_defined.  Reading of rows = Model.Rpl.alpha (the reading P_refs applies to the real
+   generators' output).  For every vendor and every well-formed program: when none of the list
+   generators of the vendor raised, every (name space, name) a row of the policy generator refers
+   to — also of a policy stream that stops with an error — is defined by a row of the prefix-list /
+   community-list / as-path / RD generator fed the same inputs.  Names are derived by
+   Model.Rpl.pfx_name (PrefixListNameGenerator.get_prefix: a bound equal to 0 counts as unset for the
+   decision, but is printed) and Model.Rpl.mangle (the "_OR_" name keeps the order of the HAS_ANY
+   arguments); both are compared with the real functions on every run (Spec/P_C14x.names_agree) and
+   every row of the model is compared word for word with the real stream (agree_full).
+   Guards (Spec/P_C14r.refs_guard, computable, evaluated on every generated case):
+     - Arista: no used (united) list is called "regexp", no community VALUE is spelled
+       "community-list" (the reading of a row cannot tell these command words from names);
+     - Arista, Cumulus: one key of the dictionary of used lists stands for one union
+       (refuted otherwise, below). *)
+From Annet Require Import Spec.P_C14r Proofs.RplRefs Proofs.RplDefs.
+
+Theorem C14_refs_defined :
+  forall (fx : fixes) (v : vendor) (g : prog),
+    wf_refs g = true -> refs_guard v g = true -> lists_ok v g = true ->
+    subset_refs (refs v (policy_rows fx v g)) (defs v (lists_rows v g)) = true.
+Proof. exact refs_defined_holds. Qed.
+Print Assumptions C14_refs_defined.
+
+(* wf_refs is the part of wf_prog that matters here (references resolve, type-correct, lists have
+   members, one family per derived prefix-list name); entity names need not be unique *)
+Theorem C14_refs_defined_wf_prog :
+  forall (fx : fixes) (v : vendor) (g : prog),
+    wf_prog g = true -> refs_guard v g = true -> lists_ok v g = true ->
+    subset_refs (refs v (policy_rows fx v g)) (defs v (lists_rows v g)) = true.
+Proof. exact refs_defined_holds_wf_prog. Qed.
+Print Assumptions C14_refs_defined_wf_prog.
+
+(* first half on its own, without wf_prog: a policy row refers to nothing but the declared uses of
+   its condition / action (Spec/P_C14r.cond_uses, act_uses) *)
+Theorem C14_refs_are_uses :
+  forall (fx : fixes) (v : vendor) (g : prog) (toks : row) (x : ns * string),
+    reserved_ok v g = true ->
+    In toks (policy_rows fx v g) -> In x (refs1 v toks) -> In x (prog_uses v g).
+Proof. exact policy_row_uses. Qed.
+Print Assumptions C14_refs_are_uses.
+
+(* non-vacuity: unsorted HAS_ANY arguments, bounds (0,24) and (0,0), every kind of reference *)
+Definition c14_envx : env :=
+  Env [CL "A" ["1:1"] BASIC LOR false; CL "B" ["2:2"; "3:3"] BASIC LAND false;
+       CL "L1" ["1:2:3"] LARGE LOR false; CL "R1" ["100:1"] RT LAND false; CL "S1" ["100:2"] SOO LOR false;
+       CL "A_OR_B" ["9:9:9"] LARGE LOR false; CL "E" [] BASIC LOR false]
+      [PL "P4" false [PM "10.0.0.0" "8" None None]; PL "P6" true [PM "2001:db8::" "32" (Some 40) None]]
+      [AF "AS1" [".*"; "65000"]] [RD "RD1" 7 ["1:1"]].
+Definition c14_polx (v : vendor) : list policy :=
+  [Pol "pol0"
+     [St (Some 10) RAllow
+         [CComm FCommunity HAS_ANY (match v with Huawei => "B" :: nil | _ => "B" :: "A" :: nil end);
+          CComm FLarge HAS ["L1"]; CComm FExtRt HAS_ANY ["R1"]; CComm FExtSoo HAS ["S1"];
+          CPrefix false ["P4"] (Some 0) (Some 24); CPrefix true ["P6"] (Some 0) (Some 0);
+          CAsFilter "AS1"]
+         [AComm AFCommunity None ["A"] ["B"]; AComm AFLarge (Some ["L1"]) [] []];
+      St (Some 20) RNext (match v with Huawei => CRd HAS ("RD1" :: nil) :: nil | _ => nil end)
+         [AComm AFExtRt None [] ["R1"]]]].
+
+Example C14_refs_guard_met :
+  forall v, let g := Prog c14_envx (c14_polx v) in
+    wf_prog g = true /\ refs_guard v g = true /\ lists_ok v g = true /\
+    8 <= List.length (refs v (policy_rows patched v g)).
+Proof. intros v; destruct v; vm_compute; repeat split; repeat constructor. Qed.
+
+(* duplicate entity names are inside the domain: the LAST list called "A" is the one defined *)
+Example C14_refs_guard_met_duplicates :
+  let e := Env (e_cl c14_envx ++ [CL "A" ["7:7"; "8:8"] BASIC LAND false]) (e_pl c14_envx) (e_af c14_envx) (e_rd c14_envx) in
+  let g := Prog e (c14_polx Arista) in
+  wf_prog g = false /\ wf_refs g = true /\ refs_guard Arista g = true /\ lists_ok Arista g = true /\
+  In ["ip"; "community-list"; "A"; "permit"; "7:7"; "8:8"] (lists_rows Arista g).
+Proof. vm_compute. repeat split. auto 10. Qed.
+
+Example C14_refs_names_derived :
+  refs Arista (policy_rows patched Arista (Prog c14_envx (c14_polx Arista))) =
+  [(NsComm, "B_OR_A"); (NsLarge, "L1"); (NsExt, "R1"); (NsExt, "S1"); (NsPfx4, "P4_0_24"); (NsPfx6, "P6");
+   (NsAsPath, "AS1"); (NsComm, "A"); (NsLarge, "L1")].
+Proof. vm_compute. reflexivity. Qed.
+
+(* The guard "one key, one union" is necessary, and the unchanged tree violates the property there
+   (replayed on the real generators by the check, known/C14.json): HAS_ANY over the lists A, B next
+   to a LARGE list literally called "A_OR_B" — `match community A_OR_B` is emitted and only
+   `ip large-community-list A_OR_B` is defined, because the dictionary of used lists is keyed by the
+   mangled name. *)
+Definition c14_pol_collision : list policy :=
+  [Pol "pol0" [St (Some 10) RAllow [CComm FCommunity HAS_ANY ["A"; "B"]] [];
+               St (Some 20) RAllow [CComm FLarge HAS ["A_OR_B"]] []]].
+Theorem C14_refs_united_name_collision_refuted :
+  exists g, wf_prog g = true /\
+    (forall v, v <> Huawei -> reserved_ok v g = true /\ lists_ok v g = true /\
+               subset_refs (refs v (policy_rows patched v g)) (defs v (lists_rows v g)) = false).
+Proof.
+  exists (Prog c14_envx c14_pol_collision). split; [vm_compute; reflexivity|].
+  intros v Hv; destruct v; [congruence| |]; vm_compute; repeat split.
+Qed.
+Print Assumptions C14_refs_united_name_collision_refuted.
+
+(* wf_prog's "a referenced list has members" is necessary too: a list without members is referenced
+   by name and no row defines it (Huawei, Cumulus: one row per member; Arista: community lists) *)
+Theorem C14_refs_empty_list_refuted :
+  exists g, forall v, wf_refs g = false /\ refs_guard v g = true /\ lists_ok v g = true /\
+    subset_refs (refs v (policy_rows patched v g)) (defs v (lists_rows v g)) = false.
+Proof.
+  exists (Prog c14_envx [Pol "pol0" [St (Some 10) RAllow [CComm FCommunity HAS ["E"]] []]]).
+  intros v; destruct v; vm_compute; repeat split.
+Qed.
+Print Assumptions C14_refs_empty_list_refuted.
+
+(* ------------------------------------------------------------------------------------------
+   (a) acl_covered.  The ACL texts are read from the acl_huawei / acl_arista methods of the five
+   generator classes by harness/translators/tr_rpl.py on every run (Gen/Src_rpl.v; fail closed).
+   Coverage is the C06 model: Model.Acl.p_acl_covers_path on compile_acl of that text ("a row with
+   this path from the top is passed by apply_acl"), the row text being the tokens joined by blanks.
+   For Huawei and Arista (Cumulus is a text generator without ACL), for every program — no guard,
+   names and members may be any strings — every row of every generator of run_all, also of a stream
+   that stops with an error, faithful or patched, is covered by that generator's own ACL:
+   huawei community lists basic/advanced x community / extcommunity rt / soo / large, arista
+   community / extcommunity / large-community lists with and without regexp, prefix lists (arista:
+   block header and seq children), as-path, rd, and every condition / action row of the policy
+   generators under the statement header. *)
+From Annet Require Import Model.Acl Gen.Src_rpl Proofs.RplAcl Spec.P_C14a.
+
+Theorem C14_acl_covered :
+  forall (fx : fixes) (v : vendor) (g : prog) (n : gname) (o : gout) (r : mrow),
+    v <> Cumulus -> In (n, o) (run_all fx v g) -> In r (fst o) ->
+    exists av a, own_acl v n = Some (av, a) /\ mrow_covered av a r = true.
+Proof.
+  intros fx v g n o r Hv Hin Hr. destruct v; [| |congruence]; cbn in Hin;
+    repeat (destruct Hin as [Hin|Hin]; [injection Hin as <- <-|]); try destruct Hin;
+    do 2 eexists; (split; [reflexivity|]).
+  - eapply hw_policy_covered; eauto.
+  - eapply hw_prefix_covered; eauto.
+  - eapply hw_comm_covered; eauto.
+  - eapply hw_aspath_covered; eauto.
+  - eapply hw_rd_covered; eauto.
+  - eapply ar_policy_covered; eauto.
+  - eapply ar_prefix_covered; eauto.
+  - eapply ar_comm_covered; eauto.
+  - eapply ar_aspath_covered; eauto.
+Qed.
+Print Assumptions C14_acl_covered.
+
+(* the word-level cover used in the proofs is sound for the C06 model *)
+Theorem C14_wcover_sound :
+  forall av, av_juniper av = false -> forall path rs,
+    wcover av rs (map words path) = true -> p_acl_covers_path av rs path = true.
+Proof. exact wcover_sound. Qed.
+Print Assumptions C14_wcover_sound.
+
+(* teeth: a row is not covered once its line is taken out of the ACL (the former Arista defect) *)
+Example C14_acl_large_community_needs_its_line :
+  let r := MR [] ["ip"; "large-community-list"; "X"; "permit"; "1:2:3"] false None in
+  mrow_covered av_arista acl_community_arista r = true /\
+  mrow_covered av_arista (acl_without "ip large-community-list" acl_community_arista) r = false.
+Proof. exact large_community_needs_its_line. Qed.
